@@ -1,5 +1,6 @@
 import DinoProofs.Lemmas.Dynamics
 import DinoProofs.Lemmas.DynamicsMasked
+import DinoProofs.Lemmas.DynamicsMaskedNat
 import DinoProofs.Lemmas.DynamicsMoist
 import DinoProofs.Lemmas.DynamicsToy
 import Mathlib.Tactic.NormNum
@@ -362,6 +363,147 @@ theorem total_tendency_moist_indep_of_reference_masked [Div N] (eq : PrimitiveEq
 
 end Masked
 
+/-! ## the masked theorems speak about the UNRESTRICTED operations on arrays that lie in the mask
+
+`total_tendency_indep_of_reference_masked` and `…_moist_…_masked` conclude about `eq.restrict Mk C ho` (modal
+carrier `↥Mk`), while the operations compared with `/repo` by `harness/props/C04.py` are those of `eq` (modal
+carrier `M`: the rectangular arrays).  `Subtype.val` intertwines the two (`Dino.Dynamics.restrict_hom`, every field by
+`rfl`) and every equation class commutes with it (`total_restrict`, `totalMoist_restrict`: by unfolding, no law
+used), so the theorems hold verbatim for `eq` itself applied to states whose leaves lie in `Mk`. -/
+section OnMask
+variable {K M N : Type} [Field K] [DecidableEq K] [AddCommGroup M] [Module K M] [CommRing N] [Algebra K N]
+
+/-- naturality of `explicit + implicit` of the moist class -/
+theorem totalMoist_restrict [Div N] (eq : PrimitiveEquations K M N) (Mk : Submodule K M)
+    (C : MaskClosed eq.ops Mk) (ho : eq.orography ∈ Mk) (s : StateWithTime K Mk) :
+    (totalMoist (eq.restrict Mk C ho) s).map (StateWithTime.mapLevels Subtype.val)
+      = totalMoist eq (s.mapLevels Subtype.val) := by
+  unfold totalMoist MoistPrimitiveEquations.explicitTerms MoistPrimitiveEquations.implicitTerms
+    PrimitiveEquationsWithTime.implicitTerms
+  have hvt : MoistPrimitiveEquations.virtualTemperature (eq.restrict Mk C ho)
+      = MoistPrimitiveEquations.virtualTemperature eq := rfl
+  have hs : (StateWithTime.mapLevels Subtype.val s).state = s.state.mapLevels Subtype.val := rfl
+  rw [hvt, ← moistExplicitTermsWith_restrict eq Mk C ho, Option.map_map, Option.map_map, hs,
+    ← implicitTerms_restrict eq Mk C ho]
+  congr 1
+  funext e
+  simp only [Function.comp, StateWithTime.mapLevels]
+  rw [← Submodule.coe_subtype, State.add_mapLevels]
+
+/-- naturality of `explicit + implicit` of the cloud class -/
+theorem totalCloud_restrict [Div N] (eq : PrimitiveEquations K M N) (Mk : Submodule K M)
+    (C : MaskClosed eq.ops Mk) (ho : eq.orography ∈ Mk) (s : StateWithTime K Mk) :
+    (totalCloud (eq.restrict Mk C ho) s).map (StateWithTime.mapLevels Subtype.val)
+      = totalCloud eq (s.mapLevels Subtype.val) := by
+  unfold totalCloud MoistPrimitiveEquationsWithCloudMoisture.explicitTerms
+    MoistPrimitiveEquationsWithCloudMoisture.implicitTerms PrimitiveEquationsWithTime.implicitTerms
+  have hvt : MoistPrimitiveEquations.virtualTemperatureWithClouds (eq.restrict Mk C ho)
+      = MoistPrimitiveEquations.virtualTemperatureWithClouds eq := rfl
+  have hs : (StateWithTime.mapLevels Subtype.val s).state = s.state.mapLevels Subtype.val := rfl
+  rw [hvt, ← moistExplicitTermsWith_restrict eq Mk C ho, Option.map_map, Option.map_map, hs,
+    ← implicitTerms_restrict eq Mk C ho]
+  congr 1
+  funext e
+  simp only [Function.comp, StateWithTime.mapLevels]
+  rw [← Submodule.coe_subtype, State.add_mapLevels]
+
+set_option linter.unusedSectionVars false in
+/-- the hypotheses of the masked theorems, read off a state of the unrestricted carrier whose leaves lie in `Mk` -/
+theorem lift_hypotheses (eq : PrimitiveEquations K M N) (Mk : Submodule K M) (C : MaskClosed eq.ops Mk)
+    (ho : eq.orography ∈ Mk) (T₂ : List K) (s' : State Mk) (t' : List Mk) (n : ℕ)
+    (A : Admissible eq.ops (s'.mapLevels Subtype.val)) (S : Shaped eq (s'.mapLevels Subtype.val) n)
+    (ht₂ : (t'.map Subtype.val).length = n)
+    (habs : ∀ i, i < n →
+      lv (t'.map Subtype.val) i + lv T₂ i • eq.ops.oneModal
+        = lv (s'.mapLevels Subtype.val).temperatureVariation i
+          + lv eq.referenceTemperature i • eq.ops.oneModal) :
+    Admissible (eq.ops.restrict Mk C) s' ∧ Shaped (eq.restrict Mk C ho) s' n ∧ t'.length = n
+      ∧ ∀ i, i < n →
+        lv t' i + lv T₂ i • (eq.ops.restrict Mk C).oneModal
+          = lv s'.temperatureVariation i + lv eq.referenceTemperature i • (eq.ops.restrict Mk C).oneModal := by
+  refine ⟨⟨?_, ?_, ?_, ?_⟩, ⟨S.pos, S.hb, S.hlc, S.tr, ?_, ?_, ?_⟩, ?_, ?_⟩
+  · exact fun z hz => Subtype.ext (A.vort_clip z.1 (List.mem_map_of_mem hz))
+  · exact fun d hd => Subtype.ext (A.div_clip d.1 (List.mem_map_of_mem hd))
+  · exact fun d hd => Subtype.ext (A.div_mean d.1 (List.mem_map_of_mem hd))
+  · exact Subtype.ext A.lsp_clip
+  · simpa [State.mapLevels] using S.z
+  · simpa [State.mapLevels] using S.d
+  · simpa [State.mapLevels] using S.t
+  · simpa using ht₂
+  · intro i hi
+    have h := habs i hi
+    have e1 : lv (t'.map Subtype.val) i = (lv t' i).1 := lv_map_zero Subtype.val rfl t' i
+    have e2 : lv (s'.mapLevels Subtype.val).temperatureVariation i = (lv s'.temperatureVariation i).1 :=
+      lv_map_zero Subtype.val rfl s'.temperatureVariation i
+    rw [e1, e2] at h
+    exact Subtype.ext h
+
+/-- **T4.2 for the unrestricted operations on the mask**: `eq` is the object compared with the real classes
+ (modal carrier `M` = rectangular arrays); the laws are required on the masked arrays `Mk` only, `Mk` is closed under
+ the operations, and every leaf of the two states (and the orography) lies in `Mk`.  Then `explicit_terms +
+ implicit_terms` **of `eq` itself** does not depend on the reference profile. -/
+theorem total_tendency_indep_of_reference_on_mask (eq : PrimitiveEquations K M N) (Mk : Submodule K M)
+    (C : MaskClosed eq.ops Mk) (ho : eq.orography ∈ Mk) (L : LawsOn eq.ops Mk) (T₂ : List K)
+    (s₁ : State M) (t₂ : List M) (n : ℕ) (hs : s₁.InMask Mk) (ht : ∀ x ∈ t₂, x ∈ Mk)
+    (A : Admissible eq.ops s₁) (S : Shaped eq s₁ n) (hT₂ : T₂.length = n) (ht₂ : t₂.length = n)
+    (hinc : eq.includeVerticalAdvection = true) (h2 : (1 + 1 : K) ≠ 0)
+    (habs : ∀ i, i < n →
+      lv t₂ i + lv T₂ i • eq.ops.oneModal
+        = lv s₁.temperatureVariation i + lv eq.referenceTemperature i • eq.ops.oneModal) :
+    total (withTRef eq T₂) (s₁.withT t₂) = total eq s₁ := by
+  obtain ⟨s', rfl⟩ := State.exists_lift s₁ hs
+  obtain ⟨t', rfl⟩ := exists_lift_list t₂ ht
+  obtain ⟨A', S', ht', habs'⟩ := lift_hypotheses eq Mk C ho T₂ s' t' n A S ht₂ habs
+  have key := total_tendency_indep_of_reference_masked eq Mk C ho L T₂ s' t' n A' S' hT₂ ht' hinc h2 habs'
+  calc total (withTRef eq T₂) ((s'.mapLevels Subtype.val).withT (t'.map Subtype.val))
+      = (total ((withTRef eq T₂).restrict Mk C ho) (s'.withT t')).mapLevels Subtype.val :=
+        (total_restrict (withTRef eq T₂) Mk C ho (s'.withT t')).symm
+    _ = (total (eq.restrict Mk C ho) s').mapLevels Subtype.val := congrArg _ key
+    _ = total eq (s'.mapLevels Subtype.val) := total_restrict eq Mk C ho s'
+
+/-- **T4.3 for the unrestricted operations on the mask** -/
+theorem total_tendency_moist_indep_of_reference_on_mask [Div N] (eq : PrimitiveEquations K M N)
+    (Mk : Submodule K M) (C : MaskClosed eq.ops Mk) (ho : eq.orography ∈ Mk) (L : LawsOn eq.ops Mk)
+    (ML : MoistLawsOn eq.ops Mk) (T₂ : List K) (s₁ : StateWithTime K M) (t₂ qm : List M) (n : ℕ)
+    (hs : s₁.state.InMask Mk) (ht : ∀ x ∈ t₂, x ∈ Mk)
+    (A : Admissible eq.ops s₁.state) (S : Shaped eq s₁.state n)
+    (hT₂ : T₂.length = n) (ht₂ : t₂.length = n)
+    (hinc : eq.includeVerticalAdvection = true) (h2 : (1 + 1 : K) ≠ 0) (hR : eq.phys.R ≠ 0)
+    (hq : lookup specificHumidityKey s₁.state.tracers = some qm) (hqn : qm.length = n)
+    (hqc : ∀ x ∈ qm, eq.ops.clip x = x)
+    (hdiv : ∀ i, i < n → ∀ x : N,
+      ((1 : N) + (eq.phys.CpVapor / (eq.phys.R / eq.phys.kappa) - 1) • eq.ops.toNodal (lv qm i))
+        * (x / ((1 : N) + (eq.phys.CpVapor / (eq.phys.R / eq.phys.kappa) - 1) • eq.ops.toNodal (lv qm i))) = x)
+    (habs : ∀ i, i < n →
+      lv t₂ i + lv T₂ i • eq.ops.oneModal
+        = lv s₁.state.temperatureVariation i + lv eq.referenceTemperature i • eq.ops.oneModal) :
+    ∃ r, totalMoist eq s₁ = some r
+      ∧ totalMoist (withTRef eq T₂) { state := s₁.state.withT t₂, simTime := s₁.simTime } = some r := by
+  obtain ⟨st, tm⟩ := s₁
+  obtain ⟨s', rfl⟩ := State.exists_lift st hs
+  obtain ⟨t', rfl⟩ := exists_lift_list t₂ ht
+  obtain ⟨A', S', ht', habs'⟩ := lift_hypotheses eq Mk C ho T₂ s' t' n A S ht₂ habs
+  have hq0 : (lookup specificHumidityKey s'.tracers).map (List.map Subtype.val) = some qm := by
+    rw [← lookup_mapTracers]; exact hq
+  obtain ⟨qm', hq', rfl⟩ := Option.map_eq_some_iff.1 hq0
+  have key := total_tendency_moist_indep_of_reference_masked eq Mk C ho L ML T₂ ⟨s', tm⟩ t' qm' n A' S' hT₂ ht'
+    hinc h2 hR hq' (by simpa using hqn)
+    (fun x hx => Subtype.ext (hqc x.1 (List.mem_map_of_mem hx)))
+    (fun i hi x => by
+      have := hdiv i hi x
+      rwa [lv_map_zero Subtype.val rfl qm' i] at this)
+    habs'
+  obtain ⟨r, e1, e2⟩ := key
+  refine ⟨StateWithTime.mapLevels Subtype.val r, ?_, ?_⟩
+  · have := totalMoist_restrict eq Mk C ho ⟨s', tm⟩
+    rw [e1] at this
+    exact this.symm
+  · have := totalMoist_restrict (withTRef eq T₂) Mk C ho ⟨s'.withT t', tm⟩
+    rw [← withTRef_restrict, e2] at this
+    exact this.symm
+
+end OnMask
+
 /-! ## non-vacuity: the hypotheses of T4.2 – T4.4 on a concrete object; the cloud witness
 
 `Dino.Dynamics.Toy`: 2-jets in two variables over `ℚ` (a commutative algebra with two commuting
@@ -527,6 +669,143 @@ theorem masked_example :
     apply Prod.ext
     · exact h0
     · simp [mkM]
+
+/-! ### the moist masked theorem and the unrestricted-operations corollaries on the junk grid
+
+Every hypothesis of `total_tendency_moist_indep_of_reference_masked` instantiated on `toy.withJunk` (non-constant
+humidity, variable reference profiles, two uneven layers); then the corollaries for the UNRESTRICTED operations of
+`exEqJ` (modal carrier `J × ℚ`, on which `Laws` fails: `not_laws_withJunk`) applied to raw arrays `(j, 0)`. -/
+
+theorem exJ_ho : exEqJ.orography ∈ maskedPart ℚ J := (mem_maskedPart _).2 rfl
+
+/-- the masked state of `masked_example`, with specific humidity and a time stamp -/
+def exStateJM : StateWithTime ℚ ↥(maskedPart ℚ J) :=
+  { state := { exStateJ with tracers := [(specificHumidityKey, exQ.map mkM)] }, simTime := 7 }
+
+theorem exJ_admissible (tr : List (String × List ↥(maskedPart ℚ J))) :
+    Admissible (exEqJ.ops.restrict (maskedPart ℚ J) (withJunk_closed toy)) { exStateJ with tracers := tr } := by
+  have A0 := ex_admissible ([] : List (String × List J))
+  refine ⟨?_, ?_, ?_, ?_⟩
+  · intro z hz
+    obtain ⟨j, hj, rfl⟩ := List.mem_map.1 hz
+    exact Subtype.ext (Prod.ext (A0.vort_clip j hj) rfl)
+  · intro z hz
+    obtain ⟨j, hj, rfl⟩ := List.mem_map.1 hz
+    exact Subtype.ext (Prod.ext (A0.div_clip j hj) rfl)
+  · intro z hz
+    obtain ⟨j, hj, rfl⟩ := List.mem_map.1 hz
+    exact Subtype.ext (Prod.ext (A0.div_mean j hj) rfl)
+  · exact Subtype.ext (Prod.ext A0.lsp_clip rfl)
+
+theorem exJ_abs : ∀ i, i < 2 →
+    lv (exT'.map mkM) i + lv exT₂ i • (exEqJ.ops.restrict (maskedPart ℚ J) (withJunk_closed toy)).oneModal
+      = lv exStateJ.temperatureVariation i
+        + lv exEqJ.referenceTemperature i • (exEqJ.ops.restrict (maskedPart ℚ J) (withJunk_closed toy)).oneModal := by
+  intro i hi
+  have h0 := ex_abs (tr := []) i hi
+  show lv (exT'.map mkM) i + lv exT₂ i • mkM exEq.ops.oneModal
+    = lv ((exState []).state.temperatureVariation.map mkM) i + lv exEq.referenceTemperature i • mkM exEq.ops.oneModal
+  rw [lv_map_zero mkM mkM_zero, lv_map_zero mkM mkM_zero]
+  apply Subtype.ext
+  apply Prod.ext
+  · exact h0
+  · simp [mkM]
+
+theorem exJ_q_clip : ∀ x ∈ exQ.map mkM, (exEqJ.ops.restrict (maskedPart ℚ J) (withJunk_closed toy)).clip x = x := by
+  intro x hx
+  obtain ⟨j, hj, rfl⟩ := List.mem_map.1 hx
+  exact Subtype.ext (Prod.ext (ex_q_clip j hj) rfl)
+
+theorem exJ_div : ∀ i, i < 2 → ∀ x : J,
+    ((1 : J) + (exEqJ.phys.CpVapor / (exEqJ.phys.R / exEqJ.phys.kappa) - 1)
+        • exEqJ.ops.toNodal (lv (exQ.map mkM) i).1)
+      * (x / ((1 : J) + (exEqJ.phys.CpVapor / (exEqJ.phys.R / exEqJ.phys.kappa) - 1)
+        • exEqJ.ops.toNodal (lv (exQ.map mkM) i).1)) = x := by
+  intro i hi x
+  rw [lv_map_zero mkM mkM_zero]
+  exact ex_div i hi x
+
+/-- **T4.3 on the masked carrier of the junk grid**: every hypothesis instantiated (review2 F, C04 N3) -/
+theorem masked_moist_example :
+    ∃ r, totalMoist (exEqJ.restrict (maskedPart ℚ J) (withJunk_closed toy) exJ_ho) exStateJM = some r
+      ∧ totalMoist (withTRef (exEqJ.restrict (maskedPart ℚ J) (withJunk_closed toy) exJ_ho) exT₂)
+          { state := exStateJM.state.withT (exT'.map mkM), simTime := exStateJM.simTime } = some r :=
+  total_tendency_moist_indep_of_reference_masked exEqJ (maskedPart ℚ J) (withJunk_closed toy) exJ_ho
+    (lawsOn_withJunk toy toy_laws) (moistLawsOn_withJunk toy toy_moistLaws) exT₂ exStateJM (exT'.map mkM)
+    (exQ.map mkM) 2 (exJ_admissible _) ⟨by norm_num, rfl, rfl, rfl, rfl, rfl, rfl⟩ rfl rfl rfl (by norm_num)
+    (by show (2 : ℚ) ≠ 0; norm_num) (by simp [exStateJM, lookup]) rfl exJ_q_clip exJ_div exJ_abs
+
+/-- a jet as a raw array of the junk grid (junk coordinate zero) -/
+def raw (j : J) : J × ℚ := (j, 0)
+
+theorem raw_mem (l : List J) : ∀ x ∈ l.map raw, x ∈ maskedPart ℚ J := by
+  intro x hx
+  obtain ⟨j, _, rfl⟩ := List.mem_map.1 hx
+  exact (mem_maskedPart _).2 rfl
+
+/-- the state of the examples as RAW arrays of the junk grid -/
+def exRaw (tr : List (String × List J)) : StateWithTime ℚ (J × ℚ) :=
+  { state := (exState tr).state.mapLevels raw, simTime := 7 }
+
+theorem exRaw_inMask (tr : List (String × List J)) : (exRaw tr).state.InMask (maskedPart ℚ J) where
+  vorticity := raw_mem _
+  divergence := raw_mem _
+  temperatureVariation := raw_mem _
+  logSurfacePressure := (mem_maskedPart _).2 rfl
+  tracers := fun kv hkv => by
+    obtain ⟨kv', _, rfl⟩ := List.mem_map.1 hkv
+    exact raw_mem _
+
+theorem exRaw_admissible (tr : List (String × List J)) : Admissible exEqJ.ops (exRaw tr).state := by
+  have A0 := ex_admissible tr
+  refine ⟨?_, ?_, ?_, ?_⟩
+  · intro z hz
+    obtain ⟨j, hj, rfl⟩ := List.mem_map.1 hz
+    exact Prod.ext (A0.vort_clip j hj) rfl
+  · intro z hz
+    obtain ⟨j, hj, rfl⟩ := List.mem_map.1 hz
+    exact Prod.ext (A0.div_clip j hj) rfl
+  · intro z hz
+    obtain ⟨j, hj, rfl⟩ := List.mem_map.1 hz
+    exact Prod.ext (A0.div_mean j hj) rfl
+  · exact Prod.ext A0.lsp_clip rfl
+
+theorem exRaw_abs (tr : List (String × List J)) : ∀ i, i < 2 →
+    lv (exT'.map raw) i + lv exT₂ i • exEqJ.ops.oneModal
+      = lv (exRaw tr).state.temperatureVariation i + lv exEqJ.referenceTemperature i • exEqJ.ops.oneModal := by
+  intro i hi
+  have h0 := ex_abs (tr := tr) i hi
+  show lv (exT'.map raw) i + lv exT₂ i • raw exEq.ops.oneModal
+    = lv ((exState tr).state.temperatureVariation.map raw) i + lv exEq.referenceTemperature i • raw exEq.ops.oneModal
+  rw [lv_map_zero raw rfl, lv_map_zero raw rfl]
+  apply Prod.ext
+  · exact h0
+  · simp [raw]
+
+/-- **T4.2 for the UNRESTRICTED operations of the junk grid** (on which `Laws` is false), raw arrays in the mask -/
+theorem on_mask_example :
+    total (withTRef exEqJ exT₂) ((exRaw []).state.withT (exT'.map raw)) = total exEqJ (exRaw []).state :=
+  total_tendency_indep_of_reference_on_mask exEqJ (maskedPart ℚ J) (withJunk_closed toy) exJ_ho
+    (lawsOn_withJunk toy toy_laws) exT₂ (exRaw []).state (exT'.map raw) 2 (exRaw_inMask _) (raw_mem _)
+    (exRaw_admissible _) ⟨by norm_num, rfl, rfl, rfl, rfl, rfl, rfl⟩ rfl rfl rfl (by norm_num) (exRaw_abs _)
+
+/-- **T4.3 for the UNRESTRICTED operations of the junk grid**, raw arrays in the mask, non-constant humidity -/
+theorem on_mask_moist_example :
+    ∃ r, totalMoist exEqJ (exRaw exMoist) = some r
+      ∧ totalMoist (withTRef exEqJ exT₂)
+          { state := (exRaw exMoist).state.withT (exT'.map raw), simTime := (exRaw exMoist).simTime } = some r :=
+  total_tendency_moist_indep_of_reference_on_mask exEqJ (maskedPart ℚ J) (withJunk_closed toy) exJ_ho
+    (lawsOn_withJunk toy toy_laws) (moistLawsOn_withJunk toy toy_moistLaws) exT₂ (exRaw exMoist) (exT'.map raw)
+    (exQ.map raw) 2 (exRaw_inMask _) (raw_mem _) (exRaw_admissible _) ⟨by norm_num, rfl, rfl, rfl, rfl, rfl, rfl⟩
+    rfl rfl rfl (by norm_num) (by show (2 : ℚ) ≠ 0; norm_num)
+    (by simp [exRaw, exState, exMoist, lookup, State.mapLevels, mapTracers]) rfl
+    (fun x hx => by
+      obtain ⟨j, hj, rfl⟩ := List.mem_map.1 hx
+      exact Prod.ext (ex_q_clip j hj) rfl)
+    (fun i hi x => by
+      rw [lv_map_zero raw rfl]
+      exact ex_div i hi x)
+    (exRaw_abs _)
 
 /-- **T4.4, the negation of the full statement with a concrete witness**: there is a grid
  satisfying every named law, an admissible state with condensate and two reference profiles of the same
